@@ -390,6 +390,38 @@ fn check_wildcard(world: usize, target: &str) -> Verdict {
 
 fn check_wildcard_inner(world: usize, target: &str) -> Verdict {
     let (refs, subject) = &wildcard_worlds()[world];
+    check_world(refs, subject, target, &format!("world {world}"))
+}
+
+/// a chain c0 -> c1 -> ... -> c(len-1) whose last record points nowhere or back to c(back)
+/// (a rho shape); the subject points to c0
+fn long_world(len: usize, back: Option<usize>) -> (RefMap, Tags) {
+    let mut m = RefMap::new();
+    for i in 0..len {
+        let next = if i + 1 < len { Some(format!("c{}", i + 1)) } else { back.map(|b| format!("c{b}")) };
+        let mut t = vec![("x", V::Marker), ("n", V::num(i as f64))];
+        if let Some(n) = next {
+            t.push(("a", V::Ref(n, None)));
+        }
+        m.insert(format!("c{i}"), mk_tags(&t));
+    }
+    (m, mk_tags(&[("a", V::Ref("c0".into(), None)), ("x", V::Marker)]))
+}
+
+fn check_long(len: usize, back: Option<usize>, target: &str) -> Verdict {
+    let (tx, rx) = std::sync::mpsc::channel();
+    let t = target.to_string();
+    std::thread::spawn(move || {
+        let (refs, subject) = long_world(len, back);
+        let _ = tx.send(check_world(&refs, &subject, &t, &format!("chain of {len} back {back:?}")));
+    });
+    match rx.recv_timeout(std::time::Duration::from_secs(20)) {
+        Ok(v) => v.map_err(|(s, d)| (format!("{s}:long-chain"), d)),
+        Err(_) => Err(("wildcard-does-not-terminate:long-chain".into(), format!("a *== @{target} on a chain of {len} (back {back:?}) did not return within 20 s"))),
+    }
+}
+
+fn check_world(refs: &RefMap, subject: &Tags, target: &str, what: &str) -> Verdict {
     let f = F::Wild(vec!["a".into()], target.into(), None);
     let want = eval(&f, subject, refs).unwrap();
     let resolver = MapResolver { refs: refs.iter().map(|(k, v)| (k.clone(), lib_dict(v))).collect() };
@@ -397,7 +429,8 @@ fn check_wildcard_inner(world: usize, target: &str) -> Verdict {
     let lf = to_lib_filter(&f);
     let got = guarded(|| lf.eval(&EvalContext::make(&d, &DEFAULT_NS, &resolver))).map_err(|p| ("wildcard-panic".to_string(), p))?;
     if got != want {
-        return Err(("wildcard".into(), format!("a *== @{target} in world {world} ({refs:?}, subject {subject:?}): library {got}, reachability {want}")));
+        let shown = if refs.len() <= 6 { format!("{refs:?}") } else { format!("{} records", refs.len()) };
+        return Err(("wildcard".into(), format!("a *== @{target} in {what} ({shown}, subject {subject:?}): library {got}, reachability {want}")));
     }
     Ok(())
 }
@@ -432,7 +465,7 @@ fn check_grid(rows: &[Tags], f: &F) -> Verdict {
 
 pub fn run(tier: Tier) -> i32 {
     let mut run = Run::new("C07", tier, "model_checking");
-    run.rule = "programs = filter trees built from the public node structs: every single leaf (has/missing over 8 paths of 1-4 segments; 6 operators x 18 literals of every literal kind x 4 paths) on 240 records (tag a over 40 values of every kind incl. Null, lists, nested dicts; b, n present/absent); every and/or/parens shape with <= 3 leaves over a kind-distinct leaf core and 7 shapes with 4 leaves (and-of-ors, or-of-ands, mixed precedence, nested groups) over a 7/20-leaf core; == / != of nine unit-carrying literals against the same magnitude under every database unit (bare and in a list); `*==` against a caller-supplied resolver over 80 ref worlds (chains 0-3, 1- and 2-cycles, dangling ids answered with nothing / an empty record / a record without the tag); Grid::filter / filter_all on every grid of <= 3 rows over 8 records. Oracle: reference evaluator written from the statement (unit-mismatched ordering = unconstrained, skipped). states = filters, transitions = (filter, record) evaluations = traces validated; non-trivial = filter that is true on some record and false on another".into();
+    run.rule = "programs = filter trees built from the public node structs: every single leaf (has/missing over 8 paths of 1-4 segments; 6 operators x 18 literals of every literal kind x 4 paths) on 240 records (tag a over 40 values of every kind incl. Null, lists, nested dicts; b, n present/absent); every and/or/parens shape with <= 3 leaves over a kind-distinct leaf core and 7 shapes with 4 leaves (and-of-ors, or-of-ands, mixed precedence, nested groups) over a 7/20-leaf core; == / != of nine unit-carrying literals against the same magnitude under every database unit (bare and in a list); `*==` against a caller-supplied resolver over 80 ref worlds (chains 0-3, 1- and 2-cycles, dangling ids answered with nothing / an empty record / a record without the tag) and over ref chains of every length 1-40 and around 64, 100, 256, 1000 ending nowhere / at the first / middle / last record, with every record as the target; Grid::filter / filter_all on every grid of <= 3 rows over 8 records. Oracle: reference evaluator written from the statement (unit-mismatched ordering = unconstrained, skipped). states = filters, transitions = (filter, record) evaluations = traces validated; non-trivial = filter that is true on some record and false on another".into();
     run.assume("value equality of the filter language: same kind and value, Ref by id, DateTime by instant");
     run.assume("`^symbol` is covered by C13; relationship terms are only exercised for termination (C09)");
     crate::engine::quiet_panics();
@@ -547,6 +580,35 @@ pub fn run(tier: Tier) -> i32 {
     });
     run.absorb(l);
 
+    // long ref chains and rho shapes: every length 1..=40 and around 64 / 100 / 256 / 1000, the
+    // last record pointing nowhere, to the first, the middle or itself; every record of the chain
+    // (and an unknown id) as the target
+    {
+        let mut lens: Vec<usize> = (1..=40).collect();
+        lens.extend([63, 64, 65, 100, 255, 256, 257, 1000]);
+        let mut jobs: Vec<(usize, Option<usize>)> = vec![];
+        for &n in &lens {
+            for back in [None, Some(0), Some(n / 2), Some(n - 1)] {
+                jobs.push((n, back));
+            }
+        }
+        jobs.dedup();
+        let l = par_for(jobs.len(), |j, local| {
+            let (n, back) = jobs[j];
+            let mut targets: Vec<String> = if n <= 70 { (0..n).map(|k| format!("c{k}")).collect() } else { [0, 1, 15, 16, 17, 31, 32, 33, 63, 64, 65, n / 2, n - 2, n - 1].iter().filter(|&&k| k < n).map(|k| format!("c{k}")).collect() };
+            targets.push("nope".into());
+            for t in targets {
+                local.eval();
+                local.transitions += 1;
+                local.count("wildcard-long-chain-cases");
+                if let Err((sig, d)) = check_long(n, back, &t) {
+                    local.fail(&sig, json!({"long_chain": n, "back": back, "target": t}), d);
+                }
+            }
+        });
+        run.absorb(l);
+    }
+
     // grids: every grid of <= 3 rows over 8 records x a leaf core
     let grecs: Vec<Tags> = vec![
         vec![],
@@ -597,6 +659,9 @@ pub fn run(tier: Tier) -> i32 {
 }
 
 pub fn replay(case: &J) -> Verdict {
+    if let Some(n) = case.get("long_chain").and_then(|x| x.as_u64()) {
+        return check_long(n as usize, case["back"].as_u64().map(|b| b as usize), case["target"].as_str().unwrap_or(""));
+    }
     if let Some(w) = case.get("wildcard_world") {
         return check_wildcard(w.as_u64().unwrap() as usize, case["target"].as_str().unwrap());
     }
